@@ -147,7 +147,9 @@ WINDOWS = [("10", "800"), ("0", "0"), ("-9999", "9999"), ("50", "-1"), ("-1", "3
 
 
 KROME_WINDOWS = [("NONE", "NONE", "-1", "-1"), ("10", "NONE", "10", "-1"), ("NONE", ".LE.5.5e3", "-1", "5.5e3"), (">5.5e3", "NONE", "5.5e3", "-1"),
-                 ("1d2", "1d4", "1e2", "1e4"), (".GE.20", "<300", "20", "300"), ("N/A", ".LT.1.5d3", "-1", "1.5e3"), ("", "", "-1", "-1"), ("2.73", "3.e4", "2.73", "3.e4")]
+                 ("1d2", "1d4", "1e2", "1e4"), (".GE.20", "<300", "20", "300"), ("N/A", ".LT.1.5d3", "-1", "1.5e3"), ("", "", "-1", "-1"), ("2.73", "3.e4", "2.73", "3.e4"),
+                 # numbers that begin with the decimal point, bare and behind each operator spelling
+                 (".5d1", "NONE", "5", "-1"), (">.25e2", ".LE..75d4", "25", "7500"), (".GE..5e1", "<.116d4", "5", "1160"), (".GT..5", ".LT..75e3", "0.5", "750")]
 
 
 def random_literals(fmt, rnd, n):
@@ -208,6 +210,11 @@ def build_lines(fmt, thorough, seed):
                  "tmin": w[0], "tmax": w[1], "idx": idx, "code": code}
             if fmt == "kida":
                 r["tmin"], r["tmax"] = str(int(float(w[0]))), str(int(float(w[1])))
+            if fmt == "umist" and k % 4 == 1:
+                # an entry tabulated with further fits (NE = 2 or 3) for other temperature ranges: one reaction per line,
+                # coefficients and window of the first block
+                hi_ = w[1] if float(w[1]) > 0 else "300"
+                r["fits"] = [("7.77e-09", "-0.39", "39.4", hi_, "3000")] + ([("1.11e-08", "1.5", "-2.0", "3000", "41000")] if k % 8 == 1 else [])
             out.append(r)
     # the law of a type code does not depend on *which* species reacts, except for the documented
     # self-shielded molecules (H2, CO, N2): one generic row per code for reactants whose names are
